@@ -85,6 +85,22 @@ CLAIMED = {
         technique="Lean 4 proof (case analysis over the classification, reuse of the C06 invariant) + differential vs real frame_received on mutated frames, all versions",
         note="Exceptions swallowed by the guard are not observable from outside; the model's internal `rxRaised` marker is compared only through its effects (state, completions, callbacks). ",
     ),
+    "C09": dict(
+        text="Negotiation state machine (reported version, handler version, handler sequence number) over the generated _BY_VERSION table and generated default configurations, against an NCP reporting version n. Theorems for every n ≥ 4: the first version query is [seq,00,00,04]; the reported version is adopted, the handler is the version's own for 4..14 and the newest known one for newer versions; "
+        "a second query in the adopted handler's layout carrying n is sent iff n ≠ 4; the header layout afterwards is v4 / legacy 5-byte / 16-bit-ID by version range (also for unknown newer versions); the default-configuration lookup of write_config succeeds; after every later reset framing is the legacy one until negotiation is repeated. "
+        "Tie: generated tables + the real EZSP + Gateway + AshProtocol (use_thread=False) against a byte-level simulated NCP (ASH + EZSP header layer independent of bellows) for NCP versions 4..14, 15, 16, 255, serial and socket paths with the spontaneous start-up RSTACK early / late / absent, link faults during bring-up, a later reset and renegotiation; oracle on the NCP's frame log.",
+        ref="6 C09",
+        technique="Lean 4 proof (case analysis over versions on generated tables) + full-stack run against a simulated NCP",
+        note="partial: the NCP is my simulator (harness/ncpfull.py): it answers the legacy query in the legacy format and ignores frames not in a format it currently accepts; the real serial driver and the thread hand-off (use_thread=True) are not exercised here (C20). ",
+    ),
+    "C11": dict(
+        text="Model of Gateway.reset / wait_for_startup_reset / reset_received / error_received / connection_lost / eof_received over the ASH receiver model, at loop-iteration granularity (batches of primitives that land in one iteration, then the scheduled wake-ups). Theorems: the request writes exactly 1A C0 38 BC 7E and arms RESET_TIMEOUT; for all codes an RSTACK resolves the request iff its code is RESET_SOFTWARE, "
+        "any other code is reported as an NCP failure; an ERROR frame with any code is a failure and never a completion; other frames never touch the waiters; an RSTACK zeroes both frame counters from every counter state; TimeoutError exactly at start + RESET_TIMEOUT; an inductive invariant (attribute vs future object vs waiters) holds after every iteration; "
+        "after a connection loss or EOF, whatever happened earlier in the same iteration (resolved future, fired timeout, another loss), no reset or start-up waiter is left pending and connection_lost never raises. Tie: generated RESET_TIMEOUT/codes + real Gateway + AshProtocol on a virtual-time loop: all 256 RSTACK and 256 ERROR codes × 4 arrival patterns, all 64 counter states, losses/EOF at every step alone and batched in one iteration in both orders, random batches.",
+        ref="6 C11",
+        technique="Lean 4 proof (inductive invariant over iteration batches, case analysis over all codes) + exhaustive differential vs real Gateway/AshProtocol on a virtual-time loop",
+        note="Calls (reset, wait_for_startup_reset) start in their own iteration; I/O events are batched. ",
+    ),
     "C15": dict(
         text="Inductive invariant (groups distinct; every host entry programmed non-zero at its index; every free index cleared; free ∪ used covers the table) proved for every "
         "operation sequence over {start-up, subscribe, unsubscribe}, every table size, every initial table with each group at most once, every answer {OK, rejection, timeout} and every "
